@@ -1344,7 +1344,20 @@ def generate():
                   "if not self.validHints:\n self.failureReason = Failure(NoLocationHintsError())", "self.failed()"],
                  "TubConnector.checkForFailure")
     need_ordered(P.find_def(cm, "TubConnector.failed"),
-                 ["self.active = False", "self.tub.connectionFailed(self.target, self.failureReason)"], "TubConnector.failed")
+                 ["self.stopConnectionTimer()", "self.active = False", "self.tub.connectionFailed(self.target, self.failureReason)"],
+                 "TubConnector.failed")
+    # the timer path (model: lib/ConnectAll.v timed_out / cancel_all): the reason is set before the Deferreds are cancelled, the
+    # connector is inactive while _connectionFailed runs for them, failed() comes last
+    need_ordered(P.find_def(cm, "TubConnector.connectionTimedOut"),
+                 ["self.timer = None", "self.failureReason = Failure(NegotiationError(why))", "self.shutdown()", "self.failed()"],
+                 "TubConnector.connectionTimedOut")
+    need_ordered(P.find_def(cm, "TubConnector.shutdown"),
+                 ["self.active = False", "self.remainingLocations = []", "self.stopConnectionTimer()", "self.cancelRemainingConnections()"],
+                 "TubConnector.shutdown")
+    need_ordered(P.find_def(cm, "TubConnector.cancelRemainingConnections"),
+                 ["for d in list(self.pendingConnections):\n d.cancel()"], "TubConnector.cancelRemainingConnections")
+    need_ordered(P.find_def(cm, "TubConnector.stopConnectionTimer"),
+                 ["if self.timer:\n self.timer.cancel()"], "TubConnector.stopConnectionTimer")
     need(P.find_def(cm, "TubConnector.connect"), ["self.timer = reactor.callLater(timeout, self.connectionTimedOut)",
                                                    "self.active = True", "self.connectToAll()"], "TubConnector.connect")
     return {"FurlGen.v": "\n".join(out) + "\n"}
